@@ -9,7 +9,7 @@
 From PG Require Import Common.Tactics Model.Typing Proofs.TypingBasics Proofs.TypingApply
                        Proofs.TypingCompat Proofs.TypingExtend Proofs.TypingDict Proofs.TypingApplyDict
                        Proofs.TypingCompatDict Proofs.TypingUnion Proofs.TypingUnionCompat Proofs.TypingTheorems
-                       Proofs.TypingExtendFrozen.
+                       Proofs.TypingExtendFrozen Proofs.TypingUnionExtend.
 Local Open Scope Z_scope.
 
 (* Applying a spec to a value it accepts yields a value it accepts again and maps to itself:
@@ -171,3 +171,18 @@ Theorem C04_compat_sound_union_partial : forall q a b,
   forall v, total v = true -> conforms b v -> accepts a v.
 Proof. intros q a b US AV. exact (compat_sound_union q a US AV b). Qed.
 Print Assumptions C04_compat_sound_union_partial.
+
+(* Extending a Union base with a safe dispatch: the child (frozen or not, no Union / Dict schema
+   inside) extends the candidate Union.get_candidate selects; the Union base is compatible with
+   the result and accepts every value of it.  (The Union is noneable when a candidate is, as its
+   constructor ensures.)  Without [union_safe] this is refuted by C04_extend_union_base_refuted. *)
+Theorem C04_extend_union_base_partial : forall q c cs mb c',
+  no_quirks q -> goodf c ->
+  union_safe (SUnion cs mb) = true -> frozen mb = false ->
+  Forall basef cs -> wf (SUnion cs mb) -> keys_ok (SUnion cs mb) = true -> sizes_ok (SUnion cs mb) = true ->
+  (forall x, In x cs -> noneable (mods_of x) = true -> noneable mb = true) ->
+  extend q c (SUnion cs mb) = Ok c' ->
+  compat q (SUnion cs mb) c' = true /\
+  (forall v, total v = true -> conforms c' v -> accepts (SUnion cs mb) v).
+Proof. exact extend_union_base. Qed.
+Print Assumptions C04_extend_union_base_partial.
